@@ -4,6 +4,7 @@ import (
 	"bytes"
 	"fmt"
 	"os"
+	"os/exec"
 	"path/filepath"
 	"runtime"
 	"sort"
@@ -394,7 +395,54 @@ func runC12Binary(c *fw.Ctx, r *fw.Rng, kind, idx int, res *fw.Result) fw.Result
 		name = "sam toPairAlign -o stdout"
 		files["in.sam"], files["ref.fasta"] = sf.Text, ref
 	} else {
-		switch r.Intn(3) {
+		put := func(n, content string) string {
+			p := filepath.Join(d, n)
+			os.WriteFile(p, []byte(content), 0644)
+			files[n] = content
+			return p
+		}
+		switch r.Intn(7) {
+		case 3, 4:
+			measure := []string{"raw", "snp", "tn93"}[r.Intn(3)]
+			qs, ts, _ := c06Inputs(r, measure)
+			var trs []gen.FastaRec
+			for _, t := range ts {
+				trs = append(trs, t.rec)
+			}
+			args = []string{"closest", "--query", put("query.fasta", gen.RenderFasta(qs, 0)), "--target", put("target.fasta", gen.RenderFasta(trs, 0)), "-m", measure}
+			name = "closest (binary)"
+			if r.Chance(0.5) {
+				args = append(args, "-n", fmt.Sprint(r.Range(1, 5)))
+				if r.Chance(0.5) {
+					args = append(args, "--table")
+				}
+				name = "closest -n (binary)"
+			}
+		case 5:
+			W := r.Range(20, 120)
+			ref := gen.Genome(r, W)
+			var recs []gen.FastaRec
+			for i := 0; i < nrec*3; i++ {
+				recs = append(recs, gen.FastaRec{ID: fmt.Sprintf("s%d", i), Desc: fmt.Sprintf("s%d", i), Seq: ambigRunSeq(r, ref)})
+			}
+			args = []string{"updown", "list", "-r", put("ref.fasta", gen.RefFasta("root", ref, 0)), "-q", put("aln.fasta", gen.RenderFasta(recs, 0))}
+			name = "updown list (binary)"
+		case 6:
+			in := gen.MakeUpdown(r, gen.UpdownProfile{MaxQueries: 8, MaxTargets: nrec * 2, PAmbTract: 0.3, MultiHit: true})
+			args = []string{"updown", "topranking", "-r", put("ref.fasta", gen.RefFasta("root", in.Ref, 0)), "-q", put("query.fasta", gen.RenderFasta(in.Queries, 0)),
+				"-t", put("target.fasta", gen.RenderFasta(in.Targets, 0)), "--threshold-target", "10000"}
+			switch r.Intn(3) {
+			case 0:
+				args = append(args, "--size-total", fmt.Sprint(r.Range(1, 12)))
+			case 1:
+				args = append(args, "--dist-push", fmt.Sprint(r.Range(1, 3)))
+			default:
+				args = append(args, "--dist-all", fmt.Sprint(r.Range(1, 4)))
+			}
+			if r.Chance(0.5) {
+				args = append(args, "--table")
+			}
+			name = "updown topranking (binary)"
 		case 0:
 			sf := samManyQueries(r, nrec, true)
 			os.WriteFile(filepath.Join(d, "in.sam"), []byte(sf.Text), 0644)
@@ -427,7 +475,7 @@ func runC12Binary(c *fw.Ctx, r *fw.Rng, kind, idx int, res *fw.Result) fw.Result
 		}
 	}
 	withT := func(t int) []string {
-		if strings.HasPrefix(name, "snps") {
+		if strings.HasPrefix(name, "snps") || strings.HasPrefix(name, "updown") {
 			return args
 		}
 		return append(append([]string{}, args...), "-t", fmt.Sprint(t))
@@ -455,10 +503,24 @@ func runC12Binary(c *fw.Ctx, r *fw.Rng, kind, idx int, res *fw.Result) fw.Result
 			j = uint64(k+1)*104729 + uint64(idx)
 		}
 		os.Remove(filepath.Join(d, "hook.log"))
-		br := fw.RunBin(bin, withT(t), stdin, env(p, j), "", 120*time.Second)
+		// processor count as the process sees it (runtime.NumCPU follows the affinity mask)
+		cpus := []int{0, 0, 1, 2, 3, 7}[r.Intn(6)]
+		if _, err := exec.LookPath("taskset"); err != nil || cpus >= runtime.NumCPU() {
+			cpus = 0
+		}
+		var br fw.BinResult
+		if cpus > 0 {
+			if r.Chance(0.5) {
+				p = 0 // GOMAXPROCS left to default to the visible processors
+			}
+			br = fw.RunBin("taskset", append([]string{"-c", fmt.Sprintf("0-%d", cpus-1), bin}, withT(t)...), stdin, env(p, j), "", 120*time.Second)
+			res.Count("binary_executions_with_restricted_cpus", 1)
+		} else {
+			br = fw.RunBin(bin, withT(t), stdin, env(p, j), "", 120*time.Second)
+		}
 		res.Evals++
 		res.Count("binary_executions@"+name, 1)
-		res.Sig(fmt.Sprintf("%s|t%d|p%d|j%v", name, t, p, j != 0))
+		res.Sig(fmt.Sprintf("%s|t%d|p%d|j%v|c%d", name, t, p, j != 0, cpus))
 		// hook log of the binary
 		if hb, err := os.ReadFile(filepath.Join(d, "hook.log")); err == nil {
 			var evs []verifhook.Event
@@ -474,7 +536,7 @@ func runC12Binary(c *fw.Ctx, r *fw.Rng, kind, idx int, res *fw.Result) fw.Result
 				res.Count("executions_with_inversion", 1)
 			}
 		}
-		argv := append([]string{fmt.Sprintf("GOMAXPROCS=%d", p), fmt.Sprintf("VERIF_JITTER_SEED=%d", j)}, withT(t)...)
+		argv := append([]string{fmt.Sprintf("GOMAXPROCS=%d", p), fmt.Sprintf("VERIF_JITTER_SEED=%d", j), fmt.Sprintf("cpus(taskset)=%d", cpus)}, withT(t)...)
 		if br.TimedOut {
 			res.Inconclusive = append(res.Inconclusive, "binary watchdog fired")
 			continue
